@@ -276,6 +276,65 @@ theorem parseSegs_segs (W : Char → Bool) (hash : Bool) (hW : WordClass W) (key
       rw [e2, hm]
       simp [hrec]
 
+/-! ### the JSON1 spelling `[#-N]` read back by the scanner that accepts `#?` -/
+
+theorem matchSeg_hash_skip (W : Char → Bool) (t : Text) : matchSeg W true ('[' :: '#' :: t) = matchSeg W false ('[' :: t) := by
+  simp [matchSeg, skipHash]
+
+theorem matchSeg_segJ1 (W : Char → Bool) (hW : WordClass W) (k : Key) (rest : Text) (hk : k.noQuote) (hr : startOk W rest) :
+    matchSeg W true (segJ1 W k ++ rest) = some (k, rest) := by
+  cases k with
+  | name s => exact matchSeg_seg W true hW (.name s) rest hk hr
+  | idx i =>
+    by_cases hi : i < 0
+    · have e : segJ1 W (.idx i) ++ rest = '[' :: '#' :: (intText i ++ ']' :: rest) := by simp [segJ1, hi]
+      have e0 : seg W (.idx i) ++ rest = '[' :: (intText i ++ ']' :: rest) := by simp [seg]
+      rw [e, matchSeg_hash_skip, ← e0]
+      exact matchSeg_idx0 W i rest
+    · have e : segJ1 W (.idx i) = seg W (.idx i) := by simp [segJ1, hi]
+      rw [e]; exact matchSeg_idx W true i rest
+
+theorem segJ1_head (W : Char → Bool) (hW : WordClass W) (k : Key) : ∃ c t, segJ1 W k = c :: t ∧ W c = false := by
+  cases k with
+  | name s => exact seg_head W hW (.name s)
+  | idx i =>
+    by_cases hi : i < 0
+    · exact ⟨'[', _, by simp [segJ1, hi]; rfl, hW.bracket⟩
+    · have e : segJ1 W (.idx i) = seg W (.idx i) := by simp [segJ1, hi]
+      rw [e]; exact seg_head W hW (.idx i)
+
+theorem segsJ1_startOk (W : Char → Bool) (hW : WordClass W) (ks : List Key) : startOk W (segsJ1 W ks) := by
+  cases ks with
+  | nil => simp [segsJ1, startOk]
+  | cons k ks =>
+    obtain ⟨c, t, h, hc⟩ := segJ1_head W hW k
+    simp [segsJ1, h, startOk, hc]
+
+theorem parseSegs_segsJ1 (W : Char → Bool) (hW : WordClass W) (keys : List Key) (hk : ∀ k ∈ keys, k.pathSafe = true) :
+    ∀ f, (segsJ1 W keys).length ≤ f → parseSegs W true f (segsJ1 W keys) = some keys := by
+  induction keys with
+  | nil => intro f _; cases f <;> simp [segsJ1, parseSegs]
+  | cons k ks ih =>
+    intro f hf
+    obtain ⟨c, t, h, hc⟩ := segJ1_head W hW k
+    have hk1 : k.noQuote := by
+      have := hk k (by simp)
+      cases k with
+      | idx i => trivial
+      | name s => simpa [Key.pathSafe, Key.noQuote] using this
+    have hm := matchSeg_segJ1 W hW k (segsJ1 W ks) hk1 (segsJ1_startOk W hW ks)
+    have hlen : (segsJ1 W (k :: ks)).length = (t.length + 1) + (segsJ1 W ks).length := by
+      simp [segsJ1, h]; omega
+    cases f with
+    | zero => omega
+    | succ f =>
+      have hrec := ih (fun k hk' => hk k (by simp [hk'])) f (by omega)
+      have e : segsJ1 W (k :: ks) = c :: (t ++ segsJ1 W ks) := by simp [segsJ1, h]
+      rw [e, parseSegs]
+      have e2 : c :: (t ++ segsJ1 W ks) = segJ1 W k ++ segsJ1 W ks := by simp [h]
+      rw [e2, hm]
+      simp [hrec]
+
 /-! ### shapes of `json.dumps` texts -/
 
 theorem escChar_ne_nil (c : Char) : escChar c ≠ [] := by
